@@ -35,6 +35,9 @@ CLAIMED = {
  "C12": dict(engine="E1", design="§5 C12", technique="bounded exhaustive product over helper-triggering types, positions and nesting chains; helper uses ⊆ definitions ∪ imports from a token scan of the real output",
      text="16 trigger types × 7 positions × every nesting chain of depth ≤ 2 (quick) / ≤ 3 (thorough) over 6 constructors × field attributes × 6 languages, plus all ordered trigger pairs; every helper name in use (Swift CodableVoid, Scala unsigned aliases, Python typing/pydantic/enum/datetime names, TypeVars and (de)serialiser functions, Go package qualifiers, Kotlin serialization annotations, TS reviver/replacer pair) must be defined or imported in the same output.",
      note="Single-file mode; multi-file Swift Codable.swift is exercised by the CLI-level checks. Vocabulary is per backend and fixed."),
+ "C14": dict(engine="E1+S-cli", design="§5 C14", technique="exhaustive product over small multi-crate workspaces executed with the real binary in folder and single-file mode; partition/import oracle on the parsed outputs",
+     text="Full product of 9 reference forms (use single/group/nested/glob, qualified paths, crate::/super::/self::) × serde(rename) on the target × type mapping × same-named type in a third crate × 3 reference positions × file depth/dashed crate name × 6 languages (thorough; a stated sub-product in quick). Each workspace is generated with -d and -o: the file set and names follow the crate rule, each definition sits in its crate's file, definitions equal single-file mode, and for TypeScript/Kotlin every cross-file reference is imported from the defining module and no import names an undefined type.",
+     note="Workspaces have 2–3 crates with fixed item shapes; larger topologies are not enumerated."),
  "C15": dict(engine="E1", design="§5 C15", technique="bounded exhaustive enumeration of doc strings over a token alphabet; differential token-stream oracle (with docs vs without docs)",
      text="Every word of length ≤ 2 (quick) / ≤ 3 (thorough) over {text, newline, */, /*, //, triple quotes (both), backslash, #, backtick}, with and without separating spaces, in each Rust doc syntax that can express it, at 6 documentable positions, for 6 languages (~240k executions thorough). The code token stream of the output (comments/docstrings removed by a per-language tokenizer) must equal that of the doc-free program, tokenizing must not end inside an open comment/string, and the sentinels around the payload must lie inside comment tokens.",
      note="Trusted: the per-language tokenizers' notion of comment/docstring."),
